@@ -27,6 +27,7 @@ import (
 	"github.com/sourcenetwork/defradb/internal/core"
 	"github.com/sourcenetwork/defradb/internal/datastore"
 	"github.com/sourcenetwork/defradb/internal/encryption"
+	"github.com/sourcenetwork/defradb/internal/keys"
 )
 
 func putBlock(
@@ -144,6 +145,36 @@ func determineBlockEncryption(
 	}
 
 	// otherwise we use the same encryption as the previous block
+	encBlock, encLink, err := findEncryptionOfHeads(ctx, txn, heads, false)
+	if err != nil || encBlock != nil {
+		return encBlock, encLink, err
+	}
+
+	if fieldName.HasValue() {
+		// A field that is written for the first time has no previous block to inherit from. If the
+		// whole document is encrypted, its composite heads carry the document level encryption, which
+		// also covers fields that were not part of the document when it was created.
+		docHeads, _, err := NewHeadSet(
+			txn.Headstore(),
+			keys.HeadstoreDocKey{DocID: docID, FieldID: core.COMPOSITE_NAMESPACE},
+		).List(ctx)
+		if err != nil {
+			return nil, cidlink.Link{}, NewErrGettingHeads(err)
+		}
+		return findEncryptionOfHeads(ctx, txn, docHeads, true)
+	}
+
+	return nil, cidlink.Link{}, nil
+}
+
+// findEncryptionOfHeads returns the encryption block (and its link) used by the first encrypted block
+// of the given heads. If docLevelOnly is true, only document level encryption blocks are considered.
+func findEncryptionOfHeads(
+	ctx context.Context,
+	txn datastore.Txn,
+	heads []cid.Cid,
+	docLevelOnly bool,
+) (*Encryption, cidlink.Link, error) {
 	for _, headCid := range heads {
 		prevBlockBytes, err := txn.Blockstore().AsIPLDStorage().Get(ctx, headCid.KeyString())
 		if err != nil {
@@ -161,6 +192,9 @@ func determineBlockEncryption(
 			prevEncBlock, err := GetEncryptionBlockFromBytes(prevBlockEncBytes)
 			if err != nil {
 				return nil, cidlink.Link{}, err
+			}
+			if docLevelOnly && prevEncBlock.FieldName != nil {
+				continue
 			}
 			return &Encryption{
 				DocID:     prevEncBlock.DocID,
